@@ -138,8 +138,16 @@ Definition dec_kind (j : J) : option join_kind :=
   | _ => None
   end.
 
+(* A fan-out at least as large as the number of accumulators merges them in one group, whatever
+   its exact value (`firstn f l = l` for `length l <= f`); the correspondence never has 10^6
+   partitions, so huge fan-outs (the harness sends e.g. 2^40) are clamped instead of being
+   expanded into a unary `nat`. *)
 Definition dec_fanout (j : J) : option (option nat) :=
-  match j with JN => Some None | _ => option_map Some (dec_nat j) end.
+  match j with
+  | JN => Some None
+  | JI z => if 0 <=? z then Some (Some (Z.to_nat (Z.min z 1000000))) else None
+  | _ => None
+  end.
 
 Definition obind2 {A B C} (a : option A) (b : option B) (f : A -> B -> C) : option C :=
   match a, b with Some x, Some y => Some (f x y) | _, _ => None end.
